@@ -71,6 +71,8 @@ type Ev struct {
 	RInit   []Ev             `json:"init,omitempty"`
 	RModSvc bool             `json:"modsvc,omitempty"` // register the test module service (finding D9)
 	Tag     string           `json:"tag,omitempty"`
+	// restore only (S4): the operations that lead from the initial state to the restored state
+	Path []Ev `json:"path,omitempty"`
 
 	// StartBatch only: the requests listed by the sub-step's new_batch_request event, in order
 	EvReqs []EvReq `json:"evreqs"`
